@@ -9,8 +9,8 @@ const cgAssumption = "call resolution: static callees; foreign (gnark-crypto / s
 
 func init() {
 	register("C01", backendPkgsG16, func(p *Prog, r *Report) {
-		r.Engines = []string{"verifier(V-PASS,V-COVER,V-GUARD-LEN,V-ERR)"}
-		r.Explanation = "Static analysis of the 7 generated Groth16 Verify functions (SSA + dominators). Decided: (V-PASS) every accepting exit of Verify passes each reviewed check event — subgroup checks of Ar/Krs/Bs, public-witness length guard, MultiExp over vk.G1.K and the witness, both Miller loops, the final GT equality, and (only bypassable under a condition computed from the trusted key) the Pedersen batch verification — with the reviewed argument provenance; (V-COVER) every field of Proof and the public witness flows into a check event on the accepting paths; (V-GUARD-LEN) every proof-supplied slice that is indexed or ranged over has its length fixed against the key on all accepting paths; (V-ERR) no error result in Verify is discarded. NOT decided: that the pairing equation is the right equation, correctness of Setup's key polynomials, anything inside gnark-crypto, proofs of non-satisfying assignments (algebra)."
+		r.Engines = []string{"verifier(V-PASS,V-COVER,V-GUARD-LEN,V-ERR)", "randflow(SETUP-TOXIC)"}
+		r.Explanation = "Static analysis of the 7 generated Groth16 Verify functions (SSA + dominators). Decided: (V-PASS) every accepting exit of Verify passes each reviewed check event — subgroup checks of Ar/Krs/Bs, public-witness length guard, MultiExp over vk.G1.K and the witness, both Miller loops, the final GT equality, and (only bypassable under a condition computed from the trusted key) the Pedersen batch verification — with the reviewed argument provenance; (V-COVER) every field of Proof and the public witness flows into a check event on the accepting paths; (V-GUARD-LEN) every proof-supplied slice that is indexed or ranged over has its length fixed against the key on all accepting paths; (V-ERR) no error result in Verify is discarded; (SETUP-TOXIC) in the trapdoor sampler that Setup calls, each of the scalars tau, alpha, beta, gamma, delta is written only by an error-checked SetRandom on exactly that field and each inverse only by Inverse of its scalar — no scalar is a copy of another, a constant or left at zero. NOT decided: that the pairing equation is the right equation, correctness of Setup's key polynomials, anything inside gnark-crypto, proofs of non-satisfying assignments (algebra)."
 		r.RuleText = "one obligation per (rule, sibling package, construct): required check event / untrusted field / untrusted slice / error-returning call; nontrivial = discharged by a witness (a must-pass event, a flow path, a dominating guard)"
 		r.Assumptions = []string{cgAssumption, "trust partition: *Proof and the public witness are attacker-controlled; *VerifyingKey and options are trusted", "pedersen.BatchVerifyMultiVk returns an error unless len(commitments)==len(vk) (read in the pinned gnark-crypto source)"}
 		ve, err := newVerifierEngine(p)
@@ -20,6 +20,8 @@ func init() {
 		}
 		RunSibling(p, r, "C01")
 		ve.RunTargets("C01", r, "pass", "cover", "guard-len", "err")
+		RunSetupToxic(p, r)
+		r.RequireMin("SETUP-TOXIC", 7*7)
 		r.RequireMin("V-PASS", 7*10)
 		r.RequireMin("V-COVER", 7*6)
 	})
